@@ -79,10 +79,12 @@ def run(job: dict, state: dict, child) -> dict:  # noqa: ANN001
         res["exception"] = child._exc_info(e, job["repo_src"])
         return res
 
+    # the pristine copy is taken BEFORE the model is serialised for the first time: "fresh" models have never seen a
+    # to_dict()/to_json_file() call, the live model has (the CLI serialises first, library users may generate first)
+    pristine = copy.deepcopy(api)
     d0 = _canon(api.to_dict())
     d0_obj = json.loads(d0)  # a private copy: to_dict() may hand out lists that alias the model
-    pristine = copy.deepcopy(api)
-    res["deepcopy_faithful"] = _canon(pristine.to_dict()) == d0
+    res["deepcopy_faithful"] = _canon(copy.deepcopy(pristine).to_dict()) == d0
     res["d0_sha"] = _sha(d0)
     module_ids = sorted(m.id for m in api.modules.values() if m.name != "__init__")
     res["module_ids"] = module_ids
